@@ -1,4 +1,5 @@
 import XyzProofs.Props.C04
+import XyzProofs.Props.C03
 /-!
 # C09 — a partial reap shows finished batches exactly and everything else as missing
 
@@ -225,5 +226,147 @@ theorem c09_needs_one_finished (nl : β → β) (d : Dir β) (h : d.results = []
 /-! Non-vacuity: 5 settings in batches of 2 (short last batch), batches {1, 3} finished. -/
 example : partialStream (fun l => l.sum) 99 (fun i => i == 1 || i == 3) [[[0], [1]], [[2], [3]], [[4]]]
     = [0, 1, 99, 99, 4] := by decide
+
+end Crop
+
+/-! ### the statement at the level of the returned nested tuple -/
+namespace Crop
+open Core List
+variable {β : Type}
+
+/-- every stream position with the (1-based) id of the batch file it belongs to -/
+def tagged (bsl : List (List (List Nat))) : List (List Nat × Nat) :=
+  ((List.range bsl.length).zip bsl |>.map fun (j, b) => b.map fun x => (x, j + 1)).flatten
+
+theorem tagged_fst (bsl : List (List (List Nat))) : (tagged bsl).map Prod.fst = bsl.flatten := by
+  unfold tagged
+  rw [List.map_flatten, List.map_map]
+  congr 1
+  -- each zipped batch maps back to the batch itself
+  have : ∀ (l : List (List (List Nat))) (off : Nat),
+      ((List.range' off l.length).zip l).map ((List.map Prod.fst) ∘ fun (p : Nat × List (List Nat)) => p.2.map fun x => (x, p.1 + 1)) = l := by
+    intro l
+    induction l with
+    | nil => intro off; simp
+    | cons b t ih =>
+      intro off
+      simp only [List.length_cons, List.range'_succ, List.zip_cons_cons, List.map_cons, Function.comp, List.map_map]
+      rw [ih (off + 1)]
+      simp [Function.comp_def]
+  have h := this bsl 0
+  rw [← List.range_eq_range'] at h
+  exact h
+
+theorem partialStream_eq_tagged (f : List Nat → β) (ph : β) (fin : Nat → Bool) (bsl : List (List (List Nat))) :
+    partialStream f ph fin bsl = (tagged bsl).map fun p => if fin p.2 then f p.1 else ph := by
+  unfold partialStream tagged
+  rw [List.map_flatten, List.map_map]
+  congr 1
+  apply List.map_congr_left
+  intro p _
+  simp [Function.comp_def]
+
+/-- **partial reap, position by position**: under the stored shuffle (any permutation), the linear result at the
+enumeration index of the setting sown at stream position `k` is `f` of that setting if its batch is finished, and the
+placeholder otherwise -/
+theorem c09_partial_positions (P : Perms) (f : List Nat → β) (ph : β) (fin : Nat → Bool) (c : Batch.Cfg)
+    (sw : Sweep) (seed : Nat) (hseed : seed ≠ 0) (hperm : P seed sw.locs.length ~ List.range sw.locs.length) :
+    ∃ r, reorder P seed sw.locs.length (partialStream f ph fin (sownBatches P c sw seed)) = .ok r ∧
+      r.length = sw.locs.length ∧
+      ∀ k (hk : k < sw.locs.length), ∃ t, (tagged (sownBatches P c sw seed))[k]? = some t ∧
+        t.1 = sw.locs.getD ((P seed sw.locs.length).getD k 0) [] ∧
+        r[(P seed sw.locs.length).getD k 0]? = some (if fin t.2 then f t.1 else ph) := by
+  have hcover := c04_batches_cover P c sw seed (Or.inr hperm)
+  have hσlen : (P seed sw.locs.length).length = sw.locs.length := by rw [hperm.length_eq]; simp
+  have hstream : sowStream P sw seed = applyPerm (P seed sw.locs.length) sw.locs [] := by
+    simp [sowStream, seedStrategy, hseed, runLinear]
+  have htag : (tagged (sownBatches P c sw seed)).map Prod.fst = applyPerm (P seed sw.locs.length) sw.locs [] := by
+    rw [tagged_fst, hcover.1, hstream]
+  have htlen : (tagged (sownBatches P c sw seed)).length = sw.locs.length := by
+    have := congrArg List.length htag
+    simpa [applyPerm, hσlen] using this
+  have hvlen : (partialStream f ph fin (sownBatches P c sw seed)).length = sw.locs.length := by
+    rw [partialStream_eq_tagged]; simpa using htlen
+  obtain ⟨r, hr, hrlen, hpos⟩ := c09_unshuffle_positions P seed sw.locs.length _ hvlen hseed hperm
+  refine ⟨r, hr, hrlen, ?_⟩
+  intro k hk
+  have hkt : k < (tagged (sownBatches P c sw seed)).length := by rw [htlen]; exact hk
+  refine ⟨(tagged (sownBatches P c sw seed))[k], List.getElem?_eq_getElem hkt, ?_, ?_⟩
+  · have := congrArg (fun l => l[k]?) htag
+    simp only [List.getElem?_map, List.getElem?_eq_getElem hkt, Option.map_some] at this
+    simp only [applyPerm, List.getElem?_map] at this
+    have hkσ : k < (P seed sw.locs.length).length := by rw [hσlen]; exact hk
+    simp only [List.getElem?_eq_getElem hkσ, Option.map_some, Option.some.injEq] at this
+    rw [this]
+    simp [List.getD_eq_getElem?_getD, List.getElem?_eq_getElem hkσ]
+  · have h1 := hpos k hk
+    have hkσ : k < (P seed sw.locs.length).length := by rw [hσlen]; exact hk
+    have hgetD : (P seed sw.locs.length).getD k 0 = (P seed sw.locs.length)[k] := by
+      simp [List.getD_eq_getElem?_getD, List.getElem?_eq_getElem hkσ]
+    rw [hgetD, h1, partialStream_eq_tagged, List.getElem?_map, List.getElem?_eq_getElem hkt]
+    rfl
+
+end Crop
+
+namespace Crop
+open Core List
+variable {β : Type}
+
+/-- linear results read back as a function of the location (locations are pairwise distinct: `parse_combos` rejects
+repeated values and the cases are distinct) -/
+theorem linear_as_function (locs : List (List Nat)) (r : List β) (hnd : locs.Nodup) (hlen : r.length = locs.length)
+    (d : β) : locs.map (fun p => r.getD (locs.idxOf p) d) = r := by
+  apply List.ext_getElem
+  · simp [hlen]
+  · intro i h1 h2
+    simp only [List.getElem_map]
+    have hi : i < locs.length := by simpa using h1
+    rw [hnd.idxOf_getElem i hi]
+    simp [List.getD_eq_getElem?_getD, List.getElem?_eq_getElem h2]
+
+/-- the nested tuple built from linear results `r` holds `r[i]` at the index path that picks location `locs[i]` -/
+theorem nested_of_linear (sw : Sweep) (r : List β) (ph : β) (hnd : sw.locs.Nodup) (hlen : r.length = sw.locs.length)
+    (i : Nat) (hi : i < sw.locs.length) (v : β) (hv : r[i]? = some v) (idx : List Nat)
+    (hp : pick sw.coords idx = some sw.locs[i]) :
+    (processNested sw r ph).get idx = some (.leaf v) := by
+  have hfun := linear_as_function sw.locs r hnd hlen ph
+  have hrw : processNested sw r ph = processNested sw (sw.locs.map fun p => r.getD (sw.locs.idxOf p) ph) ph := by
+    rw [hfun]
+  rw [hrw, processNested_get sw _ ph idx _ hp]
+  have hmem : sw.locs[i] ∈ sw.locs := List.getElem_mem hi
+  simp only [hmem, if_true]
+  rw [hnd.idxOf_getElem i hi]
+  simp [List.getD_eq_getElem?_getD, hv]
+
+/-- **partial reap, slot by slot** (the property's own words): in the nested tuple returned by
+`reap(allow_incomplete=True)`, the slot of the setting sown at stream position `k` — i.e. of location
+`locs[σ[k]]` — holds `f` of that setting if its batch is finished and the placeholder otherwise; for every batching,
+every shuffle permutation `σ`, every set `fin` of finished batches -/
+theorem c09_partial_exact (P : Perms) (f : List Nat → β) (ph ph' : β) (fin : Nat → Bool) (c : Batch.Cfg)
+    (sw : Sweep) (seed : Nat) (hseed : seed ≠ 0) (hperm : P seed sw.locs.length ~ List.range sw.locs.length)
+    (hnd : sw.locs.Nodup) (k : Nat) (hk : k < sw.locs.length) (idx : List Nat)
+    (hp : pick sw.coords idx = some (sw.locs.getD ((P seed sw.locs.length).getD k 0) [])) :
+    ∃ r t, reorder P seed sw.locs.length (partialStream f ph fin (sownBatches P c sw seed)) = .ok r ∧
+      (tagged (sownBatches P c sw seed))[k]? = some t ∧
+      (processNested sw r ph').get idx = some (.leaf (if fin t.2 then f t.1 else ph)) := by
+  obtain ⟨r, hr, hrlen, hpos⟩ := c09_partial_positions P f ph fin c sw seed hseed hperm
+  obtain ⟨t, ht, hloc, hval⟩ := hpos k hk
+  refine ⟨r, t, hr, ht, ?_⟩
+  have hσlen : (P seed sw.locs.length).length = sw.locs.length := by rw [hperm.length_eq]; simp
+  have hkσ : k < (P seed sw.locs.length).length := by rw [hσlen]; exact hk
+  have hgetD : (P seed sw.locs.length).getD k 0 = (P seed sw.locs.length)[k] := by
+    simp [List.getD_eq_getElem?_getD, List.getElem?_eq_getElem hkσ]
+  have hi : (P seed sw.locs.length).getD k 0 < sw.locs.length := by
+    rw [hgetD]
+    have hmem := hperm.mem_iff.mp (List.getElem_mem hkσ)
+    simpa using hmem
+  have hp' : pick sw.coords idx = some sw.locs[(P seed sw.locs.length).getD k 0] := by
+    have key : ∀ j (hj : j < sw.locs.length), sw.locs.getD j [] = sw.locs[j] := by
+      intro j hj; simp [List.getD_eq_getElem?_getD, List.getElem?_eq_getElem hj]
+    rw [hp, key _ hi]
+  exact nested_of_linear sw r ph' hnd hrlen _ hi _ hval idx hp'
+
+/-! Non-vacuity: 5 settings, batches of 2, seed-3 permutation, batches {1, 3} finished -/
+example : tagged [[[4], [0]], [[3], [1]], [[2]]] = [([4], 1), ([0], 1), ([3], 2), ([1], 2), ([2], 3)] := by decide
 
 end Crop
